@@ -7,6 +7,7 @@
 //!   drive_c16 mux-record --trace f --seed S --n N [--max-reqs R] [--steps K]
 //!   drive_c16 mux-stress --trace f --seed S --n N --max-reqs R          (R requests in flight at once)
 //!   drive_c16 mux-bursts --trace f --seed S --n N                       (same-ID bursts, floods of > 100 arrivals)
+//!   drive_c16 udp-tsig --trace f --seed S --n N                         (C13: signed requests over UdpClientStream)
 //!   drive_c16 mux-tsig --trace f --seed S --n N                         (C13: signed requests, multi-message replies)
 //!   drive_c16 mux-probe                                                  (observations, no verdict)
 //!
@@ -80,6 +81,7 @@ fn main() {
         "udp-record" => rt.block_on(udp::record(seed, n, max_dgrams, &mut trace, &mut out)),
         "mux-record" => rt.block_on(mux::record(seed, n, max_reqs, steps, &mut trace, &mut out)),
         "mux-stress" => rt.block_on(mux::stress(seed, n, max_reqs, &mut trace, &mut out)),
+        "udp-tsig" => rt.block_on(tsig::record_udp(seed, n, &mut trace, &mut out)),
         "mux-tsig" => rt.block_on(async { tsig::record(seed, n, &mut trace, &mut out) }),
         "mux-bursts" => rt.block_on(mux::bursts(seed, n, &mut trace, &mut out)),
         "mux-probe" => rt.block_on(async {
